@@ -466,10 +466,10 @@ func (it *interp) glsl(in *Inst, g func(uint32) Value) (Value, bool) {
 		w := ft.Width
 		var et uint32 // exponent type
 		if n == GLFrexpStruct {
-			if t := it.p.ty[rt]; t != nil && t.Kind == TStruct && len(t.Members) == 2 {
+			if t := it.ty(rt); t != nil && t.Kind == TStruct && len(t.Members) == 2 {
 				et = t.Members[1]
 			}
-		} else if pt := it.p.ty[it.typeOfID(a[1])]; pt != nil && pt.Kind == TPointer {
+		} else if pt := it.ty(it.typeOfID(a[1])); pt != nil && pt.Kind == TPointer {
 			et = pt.Elem
 		}
 		es := it.scalarType(et)
